@@ -102,6 +102,26 @@ package commands
 //@   at call os.Rename:1 assert hexsha(fdata(arg0__)) == cleaned.Oid && !isobj(arg0__) && (arg1__ == objpath(cleaned.Oid) || arg1__ == devnull)
 //@   at call os.Rename:1 assert fdata(arg0__) == old(rrest(from)) && cleaned.Size == len(old(rrest(from)))
 
+// C01, merge driver: the merged text is cleaned into the output file, which
+// normally is the file that held the previous pointer (--output %A).  Nothing
+// of what that file held before may survive behind the new pointer: it is
+// empty when clean starts to write, and what is cleaned is the merged file.
+//@ func processFiles
+//@   props C01
+//@   at call commands.clean:1 assert dyntype(arg1__, "*os.File") && ptr_as(arg1__, "os.File") == outputFp && fpath(outputFp) == outputFile && fdata(outputFile) == ""
+//@   at call commands.clean:1 assert dyntype(arg2__, "*os.File") && ptr_as(arg2__, "os.File") == inputFp && fpath(inputFp) == filename && arg3__ == filename
+//@ func (*github.com/git-lfs/git-lfs/v3/subprocess.Cmd).Run
+//@   assumed
+//@   props C01
+//@   modifies everything
+//@ func mergeCleanup
+//@   assumed
+//@   props C01
+//@   modifies everything
+//@ func github.com/git-lfs/git-lfs/v3/subprocess.FormatPercentSequences
+//@   assumed
+//@   props C01
+//@   modifies fresh
 //@ func (*github.com/git-lfs/git-lfs/v3/lfs.GitFilter).CopyCallbackFile
 //@   assumed
 //@   props C01 C08
